@@ -37,22 +37,23 @@ def uni2tex(text):
     txt = tuple(text)
     i = 0
     while i < len(txt):
-        char = text[i]
+        char = txt[i]
         code = ord(char)
+        mark = ord(txt[i + 1]) if i + 1 < len(txt) else None
+        parts = unicodedata.decomposition(char).split()
 
-        # combining marks
-        if unicodedata.category(char) in ("Mn", "Mc") and code in accents:
-            out += "\\%s{%s}" % (accents[code], txt[i + 1])
+        # base character followed by a combining mark
+        if mark in accents and code not in accents:
+            out += "\\%s{%s}" % (accents[mark], char)
             i += 1
-        # precomposed characters
-        elif unicodedata.decomposition(char):
-            base, acc = unicodedata.decomposition(char).split()
-            acc = int(acc, 16)
-            base = int(base, 16)
-            if acc in accents:
-                out += "\\%s{%s}" % (accents[acc], chr(base))
-            else:
-                out += char
+        # precomposed characters (canonical two-part decompositions only)
+        elif (
+            len(parts) == 2
+            and not parts[0].startswith("<")
+            and int(parts[1], 16) in accents
+        ):
+            base, acc = int(parts[0], 16), int(parts[1], 16)
+            out += "\\%s{%s}" % (accents[acc], chr(base))
         else:
             out += char
         i += 1
